@@ -180,7 +180,7 @@ func rewriteFile(p *packages.Package, f *ast.File, rel string, opt Options) (edi
 	info := p.TypesInfo
 	fset := p.Fset
 	ord := 0
-	clockSeen := false
+	clockSeen, syncKept := false, false
 	add := func(pos token.Pos, text string) {
 		ord++
 		edits = append(edits, edit{off: fset.Position(pos).Offset, text: text, ord: ord})
@@ -278,6 +278,27 @@ func rewriteFile(p *packages.Package, f *ast.File, rel string, opt Options) (edi
 			}
 			if opt.Sync && inflector {
 				if id, ok := x.X.(*ast.Ident); ok {
+					if pn, ok := info.Uses[id].(*types.PkgName); ok && pn.Imported().Path() == "time" {
+						switch x.Sel.Name {
+						case "Now", "Since", "Until", "Sleep":
+							// the clock seam of inflsim
+							ord++
+							edits = append(edits, edit{off: fset.Position(id.Pos()).Offset, text: "__simsync /*", ord: ord})
+							ord++
+							edits = append(edits, edit{off: fset.Position(id.End()).Offset, text: "*/", ord: ord})
+							sites = append(sites, Site{ID: siteID(id.Pos()) + "." + x.Sel.Name, Kind: "clock"})
+							if !clockSeen {
+								ord++
+								edits = append(edits, edit{off: fset.Position(f.End()).Offset, text: "\nvar _ " + id.Name + ".Duration\n", ord: ord})
+							}
+							clockSeen = true
+							needSync = true
+						}
+					}
+				}
+			}
+			if opt.Sync && inflector {
+				if id, ok := x.X.(*ast.Ident); ok {
 					if pn, ok := info.Uses[id].(*types.PkgName); ok && pn.Imported().Path() == "sync/atomic" {
 						// atomic.X -> __simatomic.X: the same operation preceded by a scheduling point
 						ord++
@@ -299,11 +320,12 @@ func rewriteFile(p *packages.Package, f *ast.File, rel string, opt Options) (edi
 						ord++
 						edits = append(edits, edit{off: fset.Position(id.End()).Offset, text: "*/", ord: ord})
 						sites = append(sites, Site{ID: siteID(id.Pos()) + "." + x.Sel.Name, Kind: "sync"})
-						if !needSync {
+						if !syncKept {
 							// keep the original import used
 							ord++
 							edits = append(edits, edit{off: fset.Position(f.End()).Offset, text: "\nvar _ " + id.Name + ".Locker\n", ord: ord})
 						}
+						syncKept = true
 						needSync = true
 					}
 				}
